@@ -414,13 +414,20 @@ func (server *GripServer) Serve(pctx context.Context) error {
 
 	var grpcErr error
 	var httpErr error
+	var errLock sync.Mutex //the serving goroutines report their error while Serve may already be shutting down
 	go func() {
-		grpcErr = grpcServer.Serve(lis)
+		err := grpcServer.Serve(lis)
+		errLock.Lock()
+		grpcErr = err
+		errLock.Unlock()
 		cancel()
 	}()
 
 	go func() {
-		httpErr = httpServer.ListenAndServe()
+		err := httpServer.ListenAndServe()
+		errLock.Lock()
+		httpErr = err
+		errLock.Unlock()
 		cancel()
 	}()
 
@@ -475,6 +482,8 @@ func (server *GripServer) Serve(pctx context.Context) error {
 
 	server.ClosePlugins()
 
+	errLock.Lock()
+	defer errLock.Unlock()
 	if grpcErr != nil || httpErr != nil {
 		return fmt.Errorf("gRPC Server Error: %v\nHTTP Server Error: %v", grpcErr, httpErr)
 	}
